@@ -44,6 +44,9 @@ Rules applied to extracted text (recorded in evidence as coverage.extraction.dro
     stores; what it does when polled is NOT verified and is listed as dropped text
  17 (opt-in, `for_each_to_for it=NAME`) the statement `E.into_iter().for_each(|P| B);` becomes `for P in NAME: E B`
     (`Iterator::for_each` IS that loop; Verus has no closures that capture `&mut`)
+ 10e (opt-in, `pin_alias NAME=self.F`) pin_project plumbing of a wrapper around a pinned field: `let mut NAME = self.project().F;`
+    deleted and NAME written out as `self.F`; `path::m(self.F.as_mut(), args)` -> `self.F.m(args)`;
+    `self.F.project().G.m(` -> `Pin::new(&mut self.F.G).m(`
  13 (opt-in, `emit_as X`) the function is emitted under the identifier X (same text verified against another part of its contract)
 """
 import hashlib
@@ -217,6 +220,7 @@ def build(template_path, repo, out_path, drop_tags=()):
             unguard = False
             emit_as = None
             opaque_async = False
+            pin_alias = None
             foreach_it = None
             sink = None
             closurespec = {}
@@ -245,6 +249,11 @@ def build(template_path, repo, out_path, drop_tags=()):
                         oname = d[5:].strip()
                     elif d.startswith("emit_as "):
                         emit_as = d[8:].strip()
+                    elif d.startswith("pin_alias "):
+                        mm = re.match(r'pin_alias (\w+)=self\.(\w+)$', d)
+                        if not mm:
+                            raise ExtractError(f"template {name}: malformed pin_alias directive `{s2}`")
+                        pin_alias = (mm.group(1), mm.group(2))
                     elif d.startswith("for_each_to_for it="):
                         foreach_it = d.split("it=", 1)[1].strip()
                     elif d == "opaque_async_blocks":
@@ -708,6 +717,20 @@ def build(template_path, repo, out_path, drop_tags=()):
             else:
                 pass
             text2 = rslex.apply_edits(text, edits)
+            if pin_alias:
+                # rule 10e (textual, on the function's text after all other rules)
+                an, af = pin_alias
+                t3, n1 = re.subn(r'let\s+(?:mut\s+)?' + an + r'\s*=\s*self\.project\(\)\.' + af + r'\s*;', '', text2)
+                if n1 != 1:
+                    raise ExtractError(f"rule 10e: `{path[-1]}` has {n1} statements `let {an} = self.project().{af};`")
+                t3, n0 = re.subn(r'\bself\s*:\s*Pin<&mut Self>', '&mut self', t3)
+                if n0 != 1:
+                    raise ExtractError(f"rule 10e: `{path[-1]}` does not take `self: Pin<&mut Self>`")
+                t3 = re.sub(r'\b' + an + r'\b', f'self.{af}', t3)
+                t3 = re.sub(r'(?:\w+::)+(\w+)\(\s*self\.' + af + r'\.as_mut\(\)\s*,\s*', r'self.' + af + r'.\1(', t3)
+                t3 = re.sub(r'self\.' + af + r'\.project\(\)\.(\w+)\.(\w+)\(', r'Pin::new(&mut self.' + af + r'.\1).\2(', t3)
+                text2 = t3
+                unit.drops["pin_aliases_written_out"] = unit.drops.get("pin_aliases_written_out", 0) + 1
             fname = oname or emit_as or path[-1].split()[-1]
             owner = ""
             if len(path) >= 2 and path[-2].startswith("impl"):
